@@ -94,6 +94,105 @@ def long_history(rng: random.Random, nops: int, flush_every: int) -> Dict[str, A
 KINDS = ["ez", "nz", "eq", "ne", "lt", "ge", "if-two-futures", "loop", "foreach", "until", "add-future", "measure-array", "measure-register", "nested", "empty-bodies"]
 
 
+EPR_KINDS = ["create_keep", "create_keep_with_info", "recv_keep", "create_keep_sequential", "recv_keep_sequential", "create_context", "recv_context",
+             "create_measure", "recv_measure", "create_rsp", "recv_rsp"]
+# (an entanglement operation inside an SDK loop, and using the handles returned next to a non-sequential post routine,
+#  are not usages the SDK documents; they are not part of the sequences)
+RESOURCE = ("available loop register", "registers left", "Ran out of", "no registers", "Could not find free register")
+
+
+def _run_epr(item):
+    """one kind of entanglement operation, repeated, on the real SDK -> controller with the rig's link"""
+    import logging
+    logging.disable(logging.CRITICAL)
+    from . import rig
+    from netqasm.sdk.epr_socket import EPRSocket
+    i, kind, reps, every = item
+    sock = EPRSocket("bob")
+    conn = rig.VConnection("alice", max_qubits=5, epr_sockets=[sock])
+    conn.ex.meas_script = [0, 1] * (4 * reps + 8)
+    conn.link = rig.AutoLink(conn.ex, conn.stack, stepwise=True, mark=True)
+    events = []
+
+    def post(c, q, p):
+        q.measure()
+
+    def keep(c, q, p):
+        q.H()
+
+    def stream(n, tp="K"):
+        conn.link.remote.append(dict(remote=1, purpose=0, type=tp, n=n))
+
+    def one():
+        if kind == "create_keep":
+            sock.create_keep(1)[0].measure()
+        elif kind == "create_keep_with_info":
+            sock.create_keep_with_info(1)[0][0].measure()
+        elif kind == "recv_keep":
+            stream(1)
+            sock.recv_keep(1)[0].measure()
+        elif kind == "create_keep_sequential":
+            sock.create_keep(2, post_routine=post, sequential=True)
+        elif kind == "recv_keep_sequential":
+            stream(2)
+            sock.recv_keep(2, post_routine=post, sequential=True)
+        elif kind == "create_context":
+            with sock.create_context(2) as (q, p):
+                q.measure()
+        elif kind == "recv_context":
+            stream(2)
+            with sock.recv_context(2) as (q, p):
+                q.measure()
+        elif kind == "create_measure":
+            sock.create_measure(2)
+        elif kind == "recv_measure":
+            stream(2, "M")
+            sock.recv_measure(2)
+        elif kind == "create_rsp":
+            sock.create_rsp(1)
+        elif kind == "recv_rsp":
+            stream(1)
+            sock.recv_rsp(1)[0].measure()
+        elif kind == "post_keep_then_measure":
+            for q in sock.create_keep(2, post_routine=keep):
+                q.measure()
+        elif kind == "sequential_in_loop":
+            # an entanglement operation nested in a loop: the loop counter must survive the operation's temporaries
+            def body(c, _):
+                sock.create_keep(1, post_routine=post, sequential=True)
+            conn.loop_body(body, stop=2)
+
+    dead = False
+    for n in range(reps):
+        err = ""
+        try:
+            one()
+        except Exception as exc:
+            err = f"{type(exc).__name__}: {exc}"[:160]
+        events.append(dict(a="op", err=err, resource=any(w in err for w in RESOURCE), fault=False, requests=0, pairs=0, active=0))
+        if err:
+            break
+        if (n + 1) % every == 0 or n + 1 == reps:
+            ev = dict(a="flush", err="", resource=False, fault=False, requests=0, pairs=0, active=0)
+            try:
+                conn.flush()
+            except (rig.ControllerFault, rig.Stuck) as exc:
+                ev["fault"] = True
+                ev["err2"] = str(exc)[:160]
+                dead = True
+            except Exception as exc:
+                ev["err"] = f"{type(exc).__name__}: {exc}"[:160]
+                ev["resource"] = any(w in ev["err"] for w in RESOURCE)
+                dead = True
+            ev["requests"] = len(conn.stack.requests)
+            ev["pairs"] = sum(1 for g in conn.ex.gate_log if g[0] == "deliver")
+            ev["active"] = len(conn.active_qubits)
+            events.append(ev)
+            if dead:
+                break
+    return dict(id=i, kind=kind, reps=reps, every=every, events=events)
+
+
 def run(prop: str, tier: str) -> int:
     V = C.Verdicts(prop, tier)
     tmp = C.tmpdir()
@@ -126,6 +225,23 @@ def run(prop: str, tier: str) -> int:
         for rid, v in sorted(bad.items()):
             cse = cases[rid - 1]
             V.add("long-history-" + v[1], {"kind": cse["kind"]}, f"{cse['kind']} history ({len(cse['history'])} items): {v[1]} at item {v[3]}", {"kind": cse["kind"]})
+        # entanglement operations
+        reps = 40 if tier == "quick" else 120
+        ejobs = [(j + 1, kind, reps, fe) for j, (kind, fe) in enumerate((kd, fe) for kd in EPR_KINDS for fe in (1, 3, 10))]
+        with ProcessPoolExecutor(max_workers=C.ncpu()) as pool:
+            erows = list(pool.map(_run_epr, ejobs, chunksize=1))
+        eres = C.run_tlc_sharded("EprOps", erows, tmp, shards=min(8, C.ncpu()), tag="e", cfg="EprOps.cfg")
+        ebad = {}
+        for v in eres.verdicts:
+            ebad.setdefault(v[2], v)
+        if len(eres.ok_ids) + len(ebad) != len(erows):
+            raise C.MachineryError("EprOps gave no verdict for some sequences")
+        for rid, v in sorted(ebad.items()):
+            r = erows[rid - 1]
+            e = r["events"][v[3] - 1] if 0 < v[3] <= len(r["events"]) else {}
+            nd = sum(1 for x in r["events"][:v[3]] if x["a"] == "op")
+            V.add("epr-" + v[1], {"kind": r["kind"]},
+                  f"{r['kind']} x {r['reps']}, flush every {r['every']}: {v[1]} after {nd} completed operations: {e}", {"kind": r["kind"], "every": r["every"]})
         ops = [sum(1 for it in r["items"] if it["s"] not in ("flush", "read", "array")) for r in good]
         cov = {
             "states": res.distinct, "transitions": res.generated, "traces_validated_against_impl": len(good),
@@ -133,6 +249,7 @@ def run(prop: str, tier: str) -> int:
             "rule": "trace = long history on one connection; non-trivial = compiled completely and accepted by HostTrace; 14 directed kinds x 40 repetitions x flush periods 1/3/10 plus random mixed histories",
             "samples": [{"kind": cases[0]["kind"], "first_items": cases[0]["history"][:4]}, {"kind": "mixed", "items": len(cases[-1]["history"])}],
             "operations_per_history": {"min": min(ops) if ops else 0, "max": max(ops) if ops else 0, "total": sum(ops)},
+            "epr_sequences": {"kinds": EPR_KINDS, "repetitions": reps, "flush_every": [1, 3, 10], "validated": len(erows), "tlc_states": eres.distinct},
             "exhaustive": False, "checker_cmd": res.cmd,
         }
         return V.finish("model_checking", cov, ASSUME)
